@@ -266,7 +266,26 @@ ADDED_B11 = {
     "C14": "Added after the eleventh batch: C14.6 the path handed to the watcher is the very path the compiler asked to read.",
     "C15": "Added after the eleventh batch: C15.13 a chain of members joined by | or & is parenthesised where it is built.",
 }
+ADDED_B12 = {
+    "C01": "Added after the twelfth batch: C01.20 (= C05.13) Exclude and conditional types return no value on a path that has not consulted the semantic engine (path-sensitive precedence analysis on the typed HIR, lib/hirpath.py).",
+    "C02": "Added after the twelfth batch: C02.21 the function that reads discriminator keys off literal types yields keys only for literals the key -> literal constructor rebuilds (extractor / constructor inverse).",
+    "C03": "Added after the twelfth batch: C03.16 no implicit string conversion (template interpolation, + with a string) of an unknown-typed value where its typeof domain still contains symbol / object (typeof domains from guards, disjunctions, switch cases, aliases).",
+    "C04": "Added after the twelfth batch: C04.9 a lookup that must succeed for every element of a collection (get(k).expect) is dominated - in the function or at every call site, for the arguments passed - by a test that every element has the key; range slices proven in bounds by a local padding argument leave the census.",
+    "C05": "Added after the twelfth batch: C05.13 (= C01.20) Exclude and conditional types are answered by the engine on every path.",
+    "C06": "Added after the twelfth batch: C06.6 a DNF is only simplified by polarity-consistent clause subsumption (positive with positive, negative with negative, same direction) or by dropping contradictory clauses.",
+    "C07": "Added after the twelfth batch: C07.11 keyof duality - key sets are united across the positive atoms of a DNF clause and intersected across clauses.",
+    "C08": "Added after the twelfth batch: C08.12 a shared visited set whose hit is reported as an error is a path set (insert paired with remove in a branching recursion) - a diamond of aliases is not a cycle.",
+    "C09": "Added after the twelfth batch: C09.15 a remembered answer of the host (module resolution) is keyed by every argument of the query, unconditionally (canary control).",
+    "C11": "Added after the twelfth batch: C11.7 (= C08.5) what decides between merging the literal members of an intersection and leaving an AllOf of closed objects is the stored property values only.",
+    "C12": "Added after the twelfth batch: C12.10 (= C03.16) rendering never converts an unknown value to a string implicitly; C12.11 a reporter that delegates only to the members that reject has a branch for each rejection test of its own validate().",
+    "C13": "Added after the twelfth batch: C13.11 a digest context pairs a writer with the offset table filled from that writer; code running inside an encoding creates no new byte stream.",
+    "C14": "Added after the twelfth batch: C14.10 the JS update entry point calls the compiler's update_file_content with its own arguments on every normal path.",
+    "C15": "Added after the twelfth batch: C15.14 the regular expression that lets a property name be printed without quotes is within ID_Start ID_Continue* (class items checked against the identifier categories).",
+    "C16": "Added after the twelfth batch: C16.8 the text emitted as $ref is computed by methods of the context that read no field written after construction and write none; the storing method files the body under the given name on every normal path.",
+}
 for _k, _v in ADDED_B11.items():
+    ADDED_B10[_k] = (ADDED_B10.get(_k, "") + " " + _v).strip()
+for _k, _v in ADDED_B12.items():
     ADDED_B10[_k] = (ADDED_B10.get(_k, "") + " " + _v).strip()
 for _k in ADDED_B10:
     if _k not in CLAIMED:
